@@ -295,6 +295,9 @@ type cluster struct {
 	wireQ   []*wireMsg
 	timeoutNows []timeoutNowRec
 	probe       *pendingTask
+	respInStep       map[uint64]int // responses written per node in the current step (under simNet.mu)
+	deliveryStep     bool // current step only releases bytes while the network is gated (no timer can fire)
+	healthy          map[uint64]bool // C17: nodes inside the healed majority (nil = all)
 	blackbox         bool // race tier: no direct reads of node internals
 	strandedDeciding bool // C17 only: report the self-excluded-voter deadlock
 }
@@ -342,6 +345,7 @@ func newCluster(seed int64) *cluster {
 		crashAt:  map[string]*crashArm{},
 		hookHits: map[string]int{},
 		mons:     map[int]*streamMon{},
+		respInStep: map[uint64]int{},
 		nextCmd:  1,
 		shutdownOnRemove: true,
 	}
@@ -358,6 +362,11 @@ func newCluster(seed int64) *cluster {
 		SnapshotsRetain:   1,
 	}
 	c.led = newLedgers(c)
+	if os.Getenv("VERIF_BLACKBOX") != "" {
+		// race tier: the harness must not touch node internals from its own goroutine
+		c.blackbox = true
+		c.net.step = nil
+	}
 	curCluster.Store(c)
 	return c
 }
@@ -370,7 +379,7 @@ func shmRoot() string {
 }
 
 func (c *cluster) tracef(format string, a ...interface{}) {
-	if c.traceOn {
+	if c.traceOn && !c.blackbox {
 		c.evMu.Lock()
 		line := fmt.Sprintf("[%d] ", c.stepNo) + fmt.Sprintf(format, a...)
 		if liveTrace {
@@ -386,7 +395,11 @@ func (c *cluster) fail(oracle, key, format string, a ...interface{}) {
 	c.failMu.Lock()
 	defer c.failMu.Unlock()
 	if c.failure == nil {
-		c.failure = &failure{Oracle: oracle, Key: key, Msg: fmt.Sprintf(format, a...), Step: c.stepNo}
+		step := 0
+		if !c.blackbox {
+			step = c.stepNo
+		}
+		c.failure = &failure{Oracle: oracle, Key: key, Msg: fmt.Sprintf(format, a...), Step: step}
 	}
 }
 
@@ -797,12 +810,22 @@ func installTracer() {
 		})
 	}
 	tracer.shuttingDown = func(r *Raft, reason error) {
-		with(r, "shuttingDown", func(c *cluster, e *event) {
-			if reason != nil {
-				e.s = reason.Error()
-			}
-			e.cfg = r.configs.clone()
-		})
+		// runs on the goroutine that called Shutdown (or on the raft goroutine when
+		// the node removes itself): no reads of the node's fields here
+		c := curCluster.Load()
+		if c == nil {
+			return
+		}
+		v, ok := c.byRaft.Load(r)
+		if !ok {
+			return
+		}
+		inc := v.(*incarnation)
+		e := event{kind: "shuttingDown", nid: inc.id, inc: inc.inc, dead: inc.dead.Load()}
+		if reason != nil {
+			e.s = reason.Error()
+		}
+		c.pushEvent(e)
 	}
 	tracer.unreachable = func(r *Raft, id uint64, since time.Time, err error) {
 		with(r, "unreachable", func(c *cluster, e *event) {
@@ -875,8 +898,20 @@ func (c *cluster) onHook(point, dir string) {
 	}
 	hold := c.holds[key]
 	c.holdMu.Unlock()
+	if c.blackbox {
+		// only holds (pure channel waits) are supported in the race tier
+		if hold != nil && !inc.dead.Load() {
+			<-hold
+		}
+		return
+	}
 	if (point == "term.persisted" || point == "vote.persisted") && !inc.dead.Load() {
 		c.led.notePersisted(inc.id, inc.dir)
+	}
+	if point == "append.truncated" && !inc.dead.Load() {
+		// own goroutine: the node just removed a conflicting suffix, what it had
+		// acknowledged beyond the new last index is legitimately gone
+		c.led.lowerFloor(inc.id, inc.r.lastLogIndex)
 	}
 	if point == "snap.postmeta" && !inc.dead.Load() {
 		c.onSnapshotStored(inc)
@@ -990,8 +1025,12 @@ func (c *cluster) submitFSM(n *simNode, kind string, t FSMTask, id uint64) *pend
 	c.taskSeq++
 	pt := &pendingTask{kind: kind, nid: n.id, inc: n.inc, id: id, submit: c.stepNo, submitSeq: c.taskSeq, t: t, floorPos: c.tl().maxPosDone}
 	c.tasks = append(c.tasks, pt)
-	r := n.r
-	n.fsmQ.push(func() {
+	r, q := n.r, n.fsmQ // a crash hook on a node goroutine may clear n.r at any moment
+	if r == nil || q == nil {
+		pt.notSubmitted = true
+		return pt
+	}
+	q.push(func() {
 		select {
 		case <-r.Closed():
 			pt.notSubmitted = true
@@ -1005,8 +1044,12 @@ func (c *cluster) submitTask(n *simNode, kind string, t Task) *pendingTask {
 	c.taskSeq++
 	pt := &pendingTask{kind: kind, nid: n.id, inc: n.inc, submit: c.stepNo, submitSeq: c.taskSeq, t: t}
 	c.tasks = append(c.tasks, pt)
-	r := n.r
-	n.taskQ.push(func() {
+	r, q := n.r, n.taskQ
+	if r == nil || q == nil {
+		pt.notSubmitted = true
+		return pt
+	}
+	q.push(func() {
 		select {
 		case <-r.Closed():
 			pt.notSubmitted = true
